@@ -707,7 +707,7 @@ def run(chk, prog, cid, dunits=None, cfgname='tested', what='s=d, c=z exact'):
                             d, cfgname=cfgname)
     # real ~ complex: the integer skeletons of the d and z instantiations agree (rules/r9c_skeleton.py)
     from . import r9c_skeleton
-    all_d = {os.path.basename(u.rel) for u in prog.units if u.rel.startswith('SRC/') and os.path.basename(u.rel).startswith(('d', 'ilu_d', 'sp_d'))}
+    all_d = {os.path.basename(u.rel) for u in prog.units if u.rel.startswith(('SRC/', 'FORTRAN/')) and os.path.basename(u.rel).startswith(('d', 'ilu_d', 'sp_d', 'c_fortran_d'))}
     want = all_d if dunits is None else {b for b in all_d if b in dunits}
     if want:
         r9c_skeleton.run(chk, cid + '.rc', prog, want, cfgname)
